@@ -237,6 +237,15 @@ class SpawnProcess(multiprocessing.context.SpawnProcess):
         else:
             self._future_.set_result(result)
 
+        # Wait for the logger thread to finish handling the records here, in a
+        # regular thread, rather than leaving it entirely to `_finalize`.
+        # `_finalize` runs whenever the garbage collector happens to collect this
+        # object, possibly inside a thread that is just being started and holds
+        # `threading._shutdown_locks_lock`; joining a finished-but-not-yet-joined
+        # thread there needs the same lock and deadlocks. A thread that has been
+        # joined once is joined again without touching that lock.
+        self._logger_thread_.join()
+
     @staticmethod
     def _finalize(logger_thread, q):
         q.put(None)
